@@ -13,7 +13,7 @@ PROP = "C04"
 META = {
  "engine": "P-pattern-algebra",
  "text": "Coq theorems (Props/C04.v, closed under the global context) prove on the executable model of the pattern classes (Pat/Step.v: __init__, __next__, reset() incl. Pattern.reset's walk over vars(self)): for the reset fragment rpat (constants, sequences of scalars, series, ranges, geometric series, impulses, the 15 operators, &, abs, int, references, stutter, counter, pad, pad-to-multiple, skip-if, loop, ping-pong, reverse, subsequence, collapse, no-repeats, changed, diff, wrap, reset-on-trigger over a counter-state class, nested to any depth, parameters scalars or patterns of the fragment; proved closed under next(): C04_fragment_closed) reset() after ANY number of next() calls - including calls that raised StopIteration - yields exactly the state reset() yields on the untouched object, which for a newly constructed object is the object itself; hence the outputs after reset() are those of a new instance, repeated resets change nothing, and all() leaves the object rewound. The model is tied to the repository on every run by scripts next^k; reset; next^n; reset; next^n; all(m); next^n with k at 0, 1, block boundaries, exhaustion and beyond, on random expressions over every modelled class, compared inside Coq; an implementation-only oracle compares every post-reset output with a freshly constructed instance. Seedable and configurable classes (Pat/Seeded.v: constructors that draw, seed() overrides, __next__ that resets itself, configuration methods called at any time; generator as data): for every class meeting the contract `rewinds` - proved for PArpeggiator RANDOM, PRandomImpulseSequence with every(), all machines of Pat/Chance.v - and every history over next/reset/seed/configuration calls, reset() leaves exactly the newly constructed instance with the seed in force and the configuration calls made (C04_reset_is_fresh_configured_instance), and a freshly seeded instance consumed straight away is what reset() reproduces and what any other fresh instance with that seed is (C04_fresh_seeded_is_what_reset_reproduces, C04_seeded_instances_agree); PRef.set_pattern starts a new history (C04_reset_after_set_pattern). Stochastic patterns that contain stochastic patterns (Pat/SeededNest.v: the parent's __next__ is any program over its own draws and 'next value of child i', every child owns a generator and a seed): after any history of next / reset / seed of the parent / seed of a child, reset() leaves the newly constructed nest with, per object, the seed in force, and seeding a new nest in any order gives the nest constructed with those seeds - the parent's seed() spends nothing of its stream on the children (C04_nested_reset_is_fresh, C04_nested_seeding, C04_nested_seeded_then_reset). Tied to the repository by the seeded/configured stream: every PStochasticPattern subclass of the live package, seeded, configured through every / set_pattern / item assignment in the set-up and in mid-history, alone, nested, and containing further stochastic patterns seeded in any order, every clean segment compared with a newly constructed identically seeded and configured instance, recorded draws replayed through the model inside Coq.",
- "note": "PReset over nested patterns, PRound PIndexOf PArrayIndex PDict PDictKey PConcatenate, PSequence with pattern items and list-/tuple-/dict-valued parameters are proved on the extended fragment xpat (Props/C04More.v: C04_more_reset_erases_step, C04_more_reset_erases_reset). Known finding C04-reset-tuples: reset() does not reach a pattern stored inside a tuple (the model transcribes that: C04_more_tuple_pattern_not_rewound; the tuple stratum generates such objects and attributes a deviation to the finding only if the proposed repair removes it). Trusted: Coq kernel + VM; the harness. Stochastic classes: ranges, isolation and the generator contract are C11; their reset()/seed() is in Pat/Seeded.v (PArpeggiator RANDOM, PRandomImpulseSequence, the machines of Pat/Chance.v by embedding), the other seedable classes (PRandomExponential, regular PCoin/PSkip, pattern-valued parameters) by the oracle only. Configuration methods that draw (PMarkov.randomize) and PArpeggiator.notes= are not covered. Deterministic classes outside the model (PEuclidean PArpeggiator PNormalise PTri PSaw PPermut) are judged by the oracle only. The main stream puts tuples of scalars only; patterns inside tuples are the business of the tuple stratum.",
+ "note": "PReset over nested patterns, PRound PIndexOf PArrayIndex PDict PDictKey PConcatenate, PSequence with pattern items and list-/tuple-/dict-valued parameters are proved on the extended fragment xpat (Props/C04More.v: C04_more_reset_erases_step, C04_more_reset_erases_reset). Patterns stored inside tuples are rewound since the repair C04-reset-tuples (Step.reset_value; C04_more_tuple_item_rewound; the tuple stratum generates such objects). Trusted: Coq kernel + VM; the harness. Stochastic classes: ranges, isolation and the generator contract are C11; their reset()/seed() is in Pat/Seeded.v (PArpeggiator RANDOM, PRandomImpulseSequence, the machines of Pat/Chance.v by embedding), the other seedable classes (PRandomExponential, regular PCoin/PSkip, pattern-valued parameters) by the oracle only. Configuration methods that draw (PMarkov.randomize) and PArpeggiator.notes= are not covered. Deterministic classes outside the model (PEuclidean PArpeggiator PNormalise PTri PSaw PPermut) are judged by the oracle only. The main stream puts tuples of scalars only; patterns inside tuples are the business of the tuple stratum.",
 }
 
 REFN = 26
@@ -840,11 +840,10 @@ def check_seeded(run):
 
 # ==========================================================================================================
 # Tuple stratum: a pattern stored INSIDE A TUPLE (an item of a PSequence, nested tuples) under reset().
-# Pattern.value advances such a pattern, Pattern.reset does not reach it: the known finding C04-reset-tuples
-# (findings/C04-reset-tuples.md; the model transcribes the code, Props/C04More.v C04_more_tuple_pattern_not_rewound).
-# Oracle as in the main stream (outputs after reset() = those of a newly constructed instance).  A deviation is
-# attributed to the known finding only if it DISAPPEARS when the proposed repair is installed
-# (harness/impl/c04_repaired_impl.py); any other deviation of these cases is reported as an ordinary reset violation.
+# Pattern.value advances such a pattern; Pattern.reset did not reach it until the repair C04-reset-tuples
+# (findings/C04-reset-tuples.md).  The model transcribes the repaired method (Step.reset_value) and the theorems cover
+# these objects (Props/C04More.v: xarg's constructor XA_tup, C04_more_tuple_item_rewound).  Oracle and model comparison
+# as in the main stream; every deviation is an ordinary reset violation.
 # ==========================================================================================================
 def tuple_expr(rng, gen):
     inner = gen.gen(rng.choice([0, 1]), rng.random() < 0.7)
@@ -898,30 +897,17 @@ def check_tuple_patterns(run):
             run.nontrivial("tuple " + to_source(c.expr) + " k=%d" % c.meta["k"])
         if dev is not None:
             deviating.append(c)
-    # attribution: the same cases with the proposed repair installed
-    repaired = [Case(c.expr, c.ops, "repaired") for c in deviating]
-    run_impl(run, repaired, shards=4, script="c04_repaired_impl")
-    known = other = 0
-    for c, rc in sorted(zip(deviating, repaired), key=lambda p: size(p[0].expr)):
+    reported = 0
+    for c in sorted(deviating, key=lambda c: size(c.expr)):
         r = refs[to_source(c.expr)]
         dev = judge(c, r)
-        try:
-            gone = (not rc.status) and judge(rc, r) is None
-        except CannotJudge:
-            gone = False
-        if gone:
-            known += 1
-            sig = {"kind": "reset", "via": "pattern-inside-tuple", "class": root_cls(c.expr)}
-        else:
-            other += 1
-            sig = {"kind": "reset", "class": root_cls(c.expr), "after": dev["opname"], "stratum": "tuple"}
-        if (known if gone else other) > 3:
-            continue
-        run.violation(sig, {
+        reported += 1
+        if reported > 3:
+            break
+        run.violation({"kind": "reset", "class": root_cls(c.expr), "after": dev["opname"], "stratum": "pattern-inside-tuple"}, {
             "case": {"expr": to_source(c.expr), "expr_json": to_json(c.expr), "ops": [list(o) for o in c.ops]},
             "expected": "operation %d (%s): %s  [what a newly constructed instance produces]" % (dev["op"], dev["opname"], dev["expected"]),
             "observed": dev["observed"], "observed_outputs": c.obs_pretty(), "fresh_instance_outputs": r.obs_pretty(),
-            "with_repair_findings_C04_reset_tuples": "rewinds" if gone else "still deviates",
             "python": replay_snippet(c.expr, c.ops[:dev["op"] + 1])})
     # the model says what the code does, also here
     run_model(run, cases)
@@ -932,11 +918,10 @@ def check_tuple_patterns(run):
     if bad:
         small = shrink(run, bad[0], rounds=4)
         run.violation({"kind": "correspondence", "class": root_cls(small.expr), "stratum": "tuple"}, {
-            "broken": "correspondence Pat/Step.v (reset_field on tuples) vs the implementation: C04_more_tuple_pattern_not_rewound no longer describes this code",
+            "broken": "correspondence Pat/Step.v (reset_value: Pattern.reset on tuples) vs the implementation: C04_more_tuple_item_rewound no longer speaks about this code",
             "case": {"expr": to_source(small.expr), "expr_json": to_json(small.expr), "ops": [list(o) for o in small.ops]},
             "observed": small.obs_pretty(), "model": model_trace(run, small), "python": replay_snippet(small.expr, small.ops)}, found_input=False)
-    run.cov["tuple_stratum"] = {"cases": len(cases), "deviating_from_fresh_instance": len(deviating),
-                                "attributed_to_C04_reset_tuples": known, "other": other}
+    run.cov["tuple_stratum"] = {"cases": len(cases), "deviating_from_fresh_instance": len(deviating)}
 
 
 def replay(run, doc):
